@@ -1,6 +1,7 @@
 #!/usr/bin/env python3
 """benign_matrix.py [--tier quick|thorough] [substr...]: applies every /verif/benign/*.diff
-(behaviour-preserving maintenance changes) to /repo in turn (under /tmp/repo.lock), runs every
+(behaviour-preserving maintenance changes) to /repo in turn (under /tmp/repo.lock; or to the
+scratch worktree named by VERIF_REPO, without the lock), runs every
 claimed check with no evidence written and requires exit 0 from all of them.  Prints one line
 per patch; exit 1 if any check raised an alarm (exit 1) or broke (exit 2)."""
 import fcntl
@@ -30,10 +31,12 @@ def main():
         src = args[args.index('--dir') + 1]
         del args[args.index('--dir'):args.index('--dir') + 2]
     only = args
-    lock = open('/tmp/repo.lock', 'w')
-    fcntl.flock(lock, fcntl.LOCK_EX)
-    if sh('git', '-C', '/repo', 'status', '--porcelain', '--untracked-files=no').stdout.strip():
-        sys.exit('refusing: /repo has uncommitted changes')
+    REPO = os.environ.get('VERIF_REPO', '/repo')
+    if REPO == '/repo':
+        lock = open('/tmp/repo.lock', 'w')
+        fcntl.flock(lock, fcntl.LOCK_EX)
+    if sh('git', '-C', REPO, 'status', '--porcelain', '--untracked-files=no').stdout.strip():
+        sys.exit('refusing: %s has uncommitted changes' % REPO)
     man = json.load(open(os.path.join(HERE, 'MANIFEST.json')))
     props = [c['property_id'] for c in man['checks']]
     env = dict(os.environ, VERIF_NO_EVIDENCE='1')
@@ -44,7 +47,7 @@ def main():
         if only and not any(o in name for o in only):
             continue
         n += 1
-        a = sh('git', '-C', '/repo', 'apply', '--whitespace=nowarn', p)
+        a = sh('git', '-C', REPO, 'apply', '--whitespace=nowarn', p)
         if a.returncode != 0:
             print('NOAPPLY %s' % name)
             bad += 1
@@ -60,7 +63,8 @@ def main():
             with ThreadPoolExecutor(max_workers=10) as ex:
                 res = list(ex.map(run, props))
         finally:
-            sh('git', '-C', '/repo', 'checkout', '--', '.')
+            sh('git', '-C', REPO, 'checkout', '--', '.')
+            sh('git', '-C', REPO, 'clean', '-fdq', '--', 'dbus', 'bus')
         alarms = [(q, rc, ls) for q, rc, ls in res if rc != 0]
         if alarms:
             bad += 1
